@@ -86,7 +86,7 @@ def report_functions(rep):
 
 def failing_protocols():
     """ask Lean which protocols are not sufficient on the regenerated table"""
-    path = os.path.join(core.LEAN, "Audit_C03q.lean")
+    path = os.path.join(core.LEAN, "Audit_C03q_%d.lean" % os.getpid())
     with open(path, "w") as f:
         f.write("import CoclsModel.Orders\nimport CoclsModel.Clock\nimport CoclsModel.Generated.AtomicSites\n"
                 "import CoclsModel.Generated.LockTables\n" + C03_DEFS_SNIPPET)
